@@ -15,7 +15,8 @@ var c08Sets = []SetChoice{
 	{Spec: dy(3, 16, -8), Bases: []int{0}, Span: 4},
 	{Spec: grid.Spec{Depth: 4, Cell: 0.5, Origin: 100, TileWidth: 256}, Bases: []int{0}, Span: 5},
 	{Spec: grid.Spec{Name: "NetherlandsRDNewQuad"}, Bases: []int{8, 10, 12}, Span: 5},
-	{Spec: grid.Spec{Name: "NetherlandsRDNewQuad"}, Bases: []int{8, 10, 12}, Span: 5},
+	{Spec: dy(27, 0.03125, 0), Bases: []int{22, 23}, Span: 5}, // levels 26..31, evenly dividing
+	{Spec: dy(27, 0.03125, 0), Bases: []int{22, 23}, Span: 5},
 	{Spec: grid.Spec{Name: "WebMercatorQuad"}, Bases: []int{10}, Span: 4}, // not round: skipped and counted (guards the oracle's roundness test)
 }
 
@@ -92,7 +93,7 @@ func judgeC08(c *fw.Ctx, sc *SnapCase) {
 }
 
 func init() {
-	pr := &Profile{Sets: c08Sets, Kinds: allKinds, MinIDs: 1}
+	pr := &Profile{Sets: c08Sets, Kinds: allKinds, MinIDs: 1, Huge: true}
 	fw.Register(&fw.Prop{
 		ID: "C08", Cases: tierN(150000, 2000000),
 		Run: func(c *fw.Ctx) {
